@@ -613,6 +613,9 @@ def make_real_state(it: Interp, prog: Program) -> Obj:
     kwargs["batcher_config"] = NONE
     obj = Obj(sc, label="state")
     it.call_function(init, obj, [], kwargs, None, None, None)
+    # the batcher limits stay symbolic so that every guard shows up in the path condition
+    bc = prog.cls("state", "CheckpointBatcherConfig")
+    obj.fields["_batcher_config"] = Sym("cfg", TypeRef(classes=(bc.fq,)))
     # give keyed names to the stdlib objects created in __init__
     for attr, v in list(obj.fields.items()):
         if isinstance(v, Sym) and v.parts and v.parts[0] == "EXTCALL":
@@ -649,3 +652,167 @@ def create_checkpoint_traces(pm: ProtocolModel) -> list[Trace]:
             return Trace(("create_checkpoint", ""), it.events, "raise", r.exc, r.origin, r.site, pc=it.pc)
 
     return enumerate_paths(run)
+
+
+# ---------------------------------------------------------------------------
+# consumer model: _collect_checkpoint_batch and checkpoint_batches_forever
+# ---------------------------------------------------------------------------
+def _queue_hooks(it_items: dict, overflow_bound: int | None = None):
+    """ext-method hooks modelling the two queues: get* returns a fresh keyed item or raises queue.Empty."""
+
+    def which(recv):
+        k = recv.key()
+        return "overflow" if "overflow" in k else "main" if "checkpoint_queue" in k else None
+
+    def h_get(it, recv, args, kwargs, node):
+        q = which(recv)
+        if q is None:
+            return NotImplemented
+        n = sum(1 for e in it.events if e.kind == "Q_GET" and e.data["queue"] == q and e.data.get("item")) + 1
+        if q == "overflow" and overflow_bound is not None and n > overflow_bound:
+            c = 1  # inductive invariant: at most `overflow_bound` parked updates at entry (checked by C05/R3.overflow-invariant)
+        else:
+            c = it.decide(f"{q}.get#{n}@{len(it.events)}", 2, ["item", "Empty"])
+        if c == 1:
+            it.emit("Q_GET", node, queue=q, item=None, blocking="timeout" in kwargs or bool(args))
+            raise _Raise(Obj(None, builtin_cls="queue.Empty", label=f"Empty@{q}"), it.site(node))
+        item = it_items["make"](it, q, n)
+        it.emit("Q_GET", node, queue=q, item=item.key(), item_v=item, blocking="timeout" in kwargs or bool(args))
+        return item
+
+    def h_put(it, recv, args, kwargs, node):
+        q = which(recv)
+        if q is None:
+            return NotImplemented
+        it.emit("Q_PUT", node, queue=q, item=args[0].key() if args else None, item_v=args[0] if args else None,
+                batch_len=it_items.get("batch_len", lambda: None)())
+        return NONE
+
+    def h_empty(it, recv, args, kwargs, node):
+        q = which(recv)
+        if q is None:
+            return NotImplemented
+        n = sum(1 for e in it.events if e.kind == "Q_EMPTY" and e.data["queue"] == q) + 1
+        r = it.decide(f"{q}.empty()#{n}", 2, [False, True]) == 1
+        it.emit("Q_EMPTY", node, queue=q, result=r)
+        return Const(r)
+
+    def h_noop(it, recv, args, kwargs, node):
+        return NONE if which(recv) else NotImplemented
+
+    return {"get": h_get, "get_nowait": h_get, "put": h_put, "put_nowait": h_put, "empty": h_empty, "task_done": h_noop}
+
+
+def collect_batch_traces(pm: ProtocolModel, while_iters: int = 2, overflow_bound: int | None = 1) -> list[Trace]:
+    prog = pm.prog
+    fn = prog.func("state", "ExecutionState._collect_checkpoint_batch")
+    size_fn = prog.func("state", "ExecutionState._calculate_operation_size")
+    qop = prog.cls("state", "QueuedOperation")
+
+    def make(it, q, n):
+        o = Obj(qop, label=f"{q[:2]}#{n}")
+        o.fields.update(operation_update=Sym(f"{q[:2]}#{n}.update"), completion_event=Sym(f"{q[:2]}#{n}.event"))
+        return o
+
+    def h_size(it, f, sv, a, k, n):
+        item = a[0] if a else k.get("queued_op")
+        it.emit("SIZE", n, item=item.key())
+        return Sym(f"size({item.key()})", TypeRef(prim="int"))
+
+    cfg = pm.make_config(faults=False, user_raises={}, extra_hooks={size_fn.fq: h_size})
+    del cfg.hooks[pm.ckpt_fn.fq]
+    cfg.while_iters = while_iters
+    cfg.max_steps = 200000
+
+    def run(ch: Chooser) -> Trace:
+        it = Interp(prog, ch, cfg)
+        it.site_stack.append("<driver>")
+        it.cfg = Config(**{**cfg.__dict__})
+        try:
+            state = make_real_state(it, prog)
+            it.events.clear()
+            it.cfg.ext_method_hooks = _queue_hooks({"make": make}, overflow_bound)
+            # non-degenerate configuration: at least one operation per batch
+            it.memo["0 < cfg.max_batch_operations"] = 0
+            v = it.call_function(fn, state, [], {}, None, None, None)
+            return Trace(("collect", ""), it.events, "return", v, pc=it.pc)
+        except _Raise as r:
+            return Trace(("collect", ""), it.events, "raise", r.exc, r.origin, r.site, pc=it.pc)
+
+    return enumerate_paths(run, max_paths=400000)
+
+
+def consumer_traces(pm: ProtocolModel, while_iters: int = 2) -> list[Trace]:
+    """checkpoint_batches_forever with _collect_checkpoint_batch summarised (one sync + one async item per batch),
+    the API call forked into success / failure, and queue drains modelled."""
+    prog = pm.prog
+    fn = prog.func("state", "ExecutionState.checkpoint_batches_forever")
+    col = prog.func("state", "ExecutionState._collect_checkpoint_batch")
+    qop = prog.cls("state", "QueuedOperation")
+    ce = prog.cls("threading", "CompletionEvent")
+
+    def new_item(it, label, sync=True):
+        o = Obj(qop, label=label)
+        ev: V = NONE
+        if sync:
+            ev = Obj(ce, label=f"{label}.event")
+        o.fields.update(operation_update=Sym(f"{label}.update", TypeRef(classes=(pm.update_cls.fq,))), completion_event=ev)
+        return o
+
+    def h_collect(it, f, sv, a, k, n):
+        i = sum(1 for e in it.events if e.kind == "COLLECT") + 1
+        c = it.decide(f"collect#{i}", 2, ["batch", "empty"])
+        if c == 1:
+            it.emit("COLLECT", n, n=i, items=[])
+            return SeqVal("list", [])
+        items = [new_item(it, f"b{i}.sync"), new_item(it, f"b{i}.async", sync=False)]
+        it.emit("COLLECT", n, n=i, items=[x.key() for x in items], items_v=items)
+        return SeqVal("list", items)
+
+    def make(it, q, n):
+        return new_item(it, f"{q[:2]}#{n}", sync=True)
+
+    def h_api(it, recv, args, kwargs, node):
+        if "service_client" not in recv.key():
+            return NotImplemented
+        i = sum(1 for e in it.events if e.kind == "API") + 1
+        ev = it.emit("API", node, n=i, token=kwargs.get("checkpoint_token", NONE).key(), updates=kwargs.get("updates", NONE).key(),
+                     kwargs={k: v.key() for k, v in kwargs.items()})
+        c = it.decide(f"API#{i} outcome", 2, ["ok", "fails"])
+        ev.data["outcome"] = ["ok", "fails"][c]
+        if c == 1:
+            raise _Raise(it.make_exc("builtins.Exception*", f"API#{i}"), it.site(node))
+        return Sym(f"output#{i}", TypeRef(classes=(prog.cls("lambda_service", "CheckpointOutput").fq,)))
+
+    def h_fetch(it, f, sv, a, k, n):
+        it.emit("FETCH", n, args=[x.key() for x in a])
+        return NONE
+
+    hooks = completion_event_hooks(prog)
+    hooks[col.fq] = h_collect
+    from .common import methods_writing_operations
+
+    for mname in methods_writing_operations(prog):
+        hooks[prog.cls("state", "ExecutionState").methods[mname].fq] = h_fetch
+    cfg = pm.make_config(faults=False, user_raises={}, extra_hooks=hooks)
+    del cfg.hooks[pm.ckpt_fn.fq]
+    cfg.while_iters = while_iters
+    cfg.max_steps = 200000
+
+    def run(ch: Chooser) -> Trace:
+        it = Interp(prog, ch, cfg)
+        it.site_stack.append("<driver>")
+        it.cfg = Config(**{**cfg.__dict__})
+        try:
+            state = make_real_state(it, prog)
+            it.events.clear()
+            qh = _queue_hooks({"make": make})
+            qh["checkpoint"] = h_api
+            it.cfg.ext_method_hooks = qh
+            # Event.is_set of the stop flag: symbolic
+            v = it.call_function(fn, state, [], {}, None, None, None)
+            return Trace(("consumer", ""), it.events, "return", v, pc=it.pc)
+        except _Raise as r:
+            return Trace(("consumer", ""), it.events, "raise", r.exc, r.origin, r.site, pc=it.pc)
+
+    return enumerate_paths(run, max_paths=400000)
